@@ -31,6 +31,22 @@ pub enum Comp {
     Chan(ChanCase),
     Task(TaskCase),
     Time(TimeCase),
+    Set(SetCase),
+}
+
+/// Scenario on the broadcasters' task set: the owner waits until every
+/// sub-task index was reported as scheduled; waker threads wake indices.
+#[derive(Clone, Debug, Serialize, Deserialize, PartialEq)]
+pub struct SetCase {
+    pub len: u8,
+    /// Per waker thread: (index, by value) in order. Every index is woken at least once overall.
+    pub wakers: Vec<Vec<(u8, bool)>>,
+    /// `notify_count` argument of `take_scheduled`.
+    pub notify_count: u8,
+    /// Indices woken before the owner starts; the owner discards them first (stale wake-ups of a
+    /// cancelled broadcast).
+    #[serde(default)]
+    pub stale: Vec<u8>,
 }
 
 /// Operations on the raw mailbox queue.
